@@ -108,9 +108,12 @@ func zzH_c10_isValid_root() { zzIsValidCore(rootCertificate, 1+vChoice("chainLen
 
 // H10-isvalid-constraints: the permittedSubtrees (dNSName) clause of isValid for a CA certificate
 // above a leaf. RFC 5280 4.2.1.10 / 6.1.4 (b): the constraint applies to the names IN the
-// certificates below (here the leaf's dNSName SANs). The code checks the requested host name
-// (opts.DNSName) instead; the assertions separate the readings:
-//   - requested-name-within-constraints: with a host requested, accept iff it satisfies one subtree;
+// certificates below (here the leaf's dNSName SANs). (The code used to check the requested host
+// name instead - two recorded findings, since repaired.) The assertions:
+//   - accept-iff-leaf-names-within-constraints: a leaf with dNSNames is accepted iff each of them
+//     satisfies one subtree, whatever host was requested;
+//   - sanless-leaf-requested-name-within-constraints: a leaf without dNSNames is matched through
+//     its common name, so the requested name is the constrained one;
 //   - leaf-names-within-constraints-rfc5280: whenever accepted, every leaf SAN satisfies one subtree;
 //   - no-host-requested-leaf-within-constraints-accepted: without a requested host, a leaf whose SANs
 //     all lie inside the subtrees is accepted.
@@ -165,9 +168,14 @@ func zzH_c10_isValid_constraints() {
 			leafWithin = false
 		}
 	}
-	if len(opts.DNSName) > 0 {
-		vAssert("requested-name-within-constraints", (err == nil) == hostWithin)
-	} else if leafWithin {
+	if len(leaf.DNSNames) > 0 {
+		// the constrained names are the leaf's own dNSNames, whatever host was requested
+		vAssert("accept-iff-leaf-names-within-constraints", (err == nil) == leafWithin)
+	} else if len(opts.DNSName) > 0 {
+		// a leaf without dNSNames is matched to the requested name through its common name: that name is the constrained one
+		vAssert("sanless-leaf-requested-name-within-constraints", (err == nil) == hostWithin)
+	}
+	if len(opts.DNSName) == 0 && leafWithin {
 		vAssert("no-host-requested-leaf-within-constraints-accepted", err == nil)
 	}
 	if err == nil {
